@@ -4,6 +4,8 @@ import (
 	"errors"
 	"fmt"
 	"io"
+	"os"
+	"syscall"
 	"strings"
 	"testing"
 	"time"
@@ -28,9 +30,12 @@ var c10Errs = map[string]error{
 	"closedPipe":    io.ErrClosedPipe,
 	"wrappedEOF":    fmt.Errorf("read: %w", io.EOF),
 	"noProgress":    io.ErrNoProgress,
+	// errors that call themselves temporary
+	"eagain":   syscall.EAGAIN,
+	"deadline": os.ErrDeadlineExceeded,
 }
 
-var c10ErrKinds = []string{"unexpectedEOF", "closedPipe", "wrappedEOF", "noProgress"}
+var c10ErrKinds = []string{"unexpectedEOF", "closedPipe", "wrappedEOF", "noProgress", "eagain", "deadline"}
 
 // faultScanner delivers the first K runes of S and fails from then on.
 type faultScanner struct {
@@ -80,6 +85,8 @@ type faultReader struct {
 	delivered bool
 	once      bool
 	err       error
+	withData  bool // the error comes in the same call as the last bytes before it
+	chunk     int  // > 0: at most that many bytes per call
 }
 
 func (f *faultReader) Read(p []byte) (int, error) {
@@ -90,6 +97,18 @@ func (f *faultReader) Read(p []byte) (int, error) {
 	end := f.k
 	if end > len(f.s) || f.delivered {
 		end = len(f.s)
+	}
+	if f.chunk > 0 && end > f.off+f.chunk {
+		end = f.off + f.chunk
+	}
+	if f.withData && !f.delivered && end == f.k && f.off < end && f.k <= len(f.s) {
+		n := copy(p, f.s[f.off:end])
+		f.off += n
+		if f.off == f.k {
+			f.delivered = true
+			return n, f.err
+		}
+		return n, nil
 	}
 	if f.off >= end {
 		return 0, io.EOF
@@ -112,6 +131,10 @@ type c10Case struct {
 	Any bool `json:"any,omitempty"`
 	// Err selects the error value (see c10Errs); empty: a private error.
 	Err string `json:"err,omitempty"`
+	// WithData / Chunk (io.Reader only): the error is returned by the same
+	// Read call as the last bytes before it; at most Chunk bytes per call.
+	WithData bool `json:"with_data,omitempty"`
+	Chunk    int  `json:"chunk,omitempty"`
 }
 
 // checkC10 returns whether the fault was delivered.
@@ -119,7 +142,7 @@ func checkC10(c c10Case) (bool, error) {
 	var src interface{}
 	var delivered func() bool
 	if c.Reader == "reader" {
-		fr := &faultReader{s: c.Src, k: c.K, once: c.Once, err: c10Errs[c.Err]}
+		fr := &faultReader{s: c.Src, k: c.K, once: c.Once, err: c10Errs[c.Err], withData: c.WithData, chunk: c.Chunk}
 		src, delivered = fr, func() bool { return fr.delivered }
 	} else {
 		fs := &faultScanner{s: c.Src, k: c.K, once: c.Once, err: c10Errs[c.Err]}
@@ -158,7 +181,51 @@ func checkC10(c c10Case) (bool, error) {
 	return true, nil
 }
 
+// checkC10Chunking: how an io.Reader cuts its bytes into Read calls, and
+// whether it returns its error together with the last bytes or by a call of
+// its own, does not change the result.
+func checkC10Chunking(c c10Case) error {
+	type outcome struct {
+		n    int
+		err  string
+		read bool
+	}
+	run := func(c c10Case) (outcome, error) {
+		fr := &faultReader{s: c.Src, k: c.K, once: c.Once, err: c10Errs[c.Err], withData: c.WithData, chunk: c.Chunk}
+		done := make(chan outcome, 1)
+		go func() {
+			cmds, _, err := parser.ParseCommands(nil, "c10", fr)
+			o := outcome{n: len(cmds), read: err != nil && errors.Is(err, c10Errs[c.Err])}
+			if err != nil {
+				o.err = err.Error()
+			}
+			done <- o
+		}()
+		select {
+		case o := <-done:
+			return o, nil
+		case <-time.After(20 * time.Second):
+			return outcome{}, fmt.Errorf("ParseCommands did not return within 20s (reader: %d bytes per call, error with data: %v, failing after %d of %q)", c.Chunk, c.WithData, c.K, c.Src)
+		}
+	}
+	plain := c
+	plain.WithData, plain.Chunk = false, 0
+	want, err := run(plain)
+	if err != nil {
+		return err
+	}
+	got, err := run(c)
+	if err != nil {
+		return err
+	}
+	if got != want {
+		return fmt.Errorf("the reader fails after %d bytes of %q: delivered in one piece with the error by a call of its own the result is %d commands, error %q; delivered %d bytes per call with the error together with the last bytes (%v) it is %d commands, error %q", c.K, c.Src, want.n, want.err, c.Chunk, c.WithData, got.n, got.err)
+	}
+	return nil
+}
+
 func init() {
+	reg("C10", "chunking", checkC10Chunking)
 	reg("C10", "fault", func(c c10Case) error {
 		_, err := checkC10(c)
 		return err
@@ -221,6 +288,17 @@ func TestC10(t *testing.T) {
 						fail(tt, "C10", "fault", c, "%v", err)
 					}
 					st.Class("transient_fault_delivered_" + reader)
+					if reader == "reader" {
+						// the same fault, the bytes cut differently and the error together with the last of them
+						cc := c10Case{Src: src, K: k, Reader: reader, Any: anySrc, Once: k%2 == 0, Err: c.Err, WithData: true, Chunk: []int{0, 1, 3, 7}[k%4]}
+						jr.begin("C10", "chunking", cc)
+						err := checkC10Chunking(cc)
+						jr.end()
+						if err != nil {
+							fail(tt, "C10", "chunking", cc, "%v", err)
+						}
+						st.Class("chunking_compared")
+					}
 					if k%3 == 0 {
 						c.Once = false
 						c.Err = c10ErrKinds[(k/3)%len(c10ErrKinds)]
